@@ -7,7 +7,7 @@ from gevent.event import AsyncResult
 from gevent.server import StreamServer
 import pycares.errno
 
-from vf.peers import StagePeer, StubClientContext
+from vf.peers import kill_relay, StagePeer, StubClientContext
 from vf.props import c11 as main
 
 import slimta.util.dns as sdns
@@ -95,7 +95,7 @@ def run_http_case(case):
             return [('C11:attempt-never-returns:http', '%s: HttpRelay.attempt() never returned' % desc)], True
         res = got.get()
     finally:
-        relay.kill()
+        kill_relay(relay)
         peer.stop()
     verdicts, bad = main.classify_result(res, rcpts)
     if bad:
@@ -189,7 +189,7 @@ def run_mx_case(case):
     finally:
         mxmod.DNSResolver.query = real
         for r in relay._relayers.values():
-            r.kill()
+            kill_relay(r)
     verdicts, bad = main.classify_result(res, list(env.recipients))
     if bad:
         kindsig = 'other-exception:%s' % type(res.exc).__name__ if isinstance(res, main.Raised) else 'malformed-result'
